@@ -57,7 +57,8 @@ type socket struct {
 	pingTimeoutTimer  atomic.Pointer[utils.Timer]
 	pingIntervalTimer atomic.Pointer[utils.Timer]
 
-	flushMu sync.Mutex
+	flushMu    sync.Mutex
+	flushAgain atomic.Bool
 }
 
 func (s *socket) Protocol() int {
@@ -522,9 +523,27 @@ func (s *socket) sendPacket(
 
 // Attempts to flush the packets buffer.
 func (s *socket) flush() {
-	s.flushMu.Lock()
-	defer s.flushMu.Unlock()
+	// A flush asked for while another one is running - by another goroutine, or by a
+	// listener of the running flush's own "flush"/"drain" events, which would
+	// otherwise wait for itself - does not wait: it leaves a note, and the running
+	// flush goes round again before it lets go.
+	s.flushAgain.Store(true)
+	for {
+		if !s.flushMu.TryLock() {
+			return
+		}
+		for s.flushAgain.Swap(false) {
+			s.doFlush()
+		}
+		s.flushMu.Unlock()
+		if !s.flushAgain.Load() {
+			return
+		}
+	}
+}
 
+// doFlush hands the buffered packets to the transport; flushMu is held.
+func (s *socket) doFlush() {
 	if s.ReadyState() != "closed" && s.Transport().Writable() {
 		// take the callbacks before the packets: Send stores the packet first and its
 		// callback second, without this lock; taken the other way round, a Send racing
